@@ -464,6 +464,12 @@ func (x *X) external(fr *Frame, st *State, fn *ssa.Function, args []SV, cc *ssa.
 			x.enc.assumption("time.Now(): an arbitrary but fixed instant per verified call (DESIGN C17: not decided)")
 		}
 		rets := pureUF("time package: abstract pure function (theory of time assumed, DESIGN §8.2)")
+		if name == "(time.Time).Compare" {
+			r := rets[0].(Term)
+			it := types.Typ[types.Int]
+			x.vc.assume(mkAnd(x.enc.intCmp(token.GEQ, r, x.enc.intConst(-1, it), it), x.enc.intCmp(token.LEQ, r, x.enc.intConst(1, it), it)))
+			x.enc.assumption("time.Time.Compare returns -1, 0 or +1")
+		}
 		for i := 0; i < sig.Results().Len(); i++ {
 			if isErrorType(sig.Results().At(i).Type()) {
 				x.externalErr(rets[i].(Term))
